@@ -34,6 +34,29 @@ def table (j : Json) : Except String Json := do
   let s := (specRun ([] : List (String × Rec)) ops).2
   pure (Json.mkObj [("model", jarr outJson m), ("spec", jarr outJson s)])
 
+def loutJson : Out Nat Rec → Json
+  | .unit => jstr "unit"
+  | .err => jstr "err"
+  | .val v => Json.mkObj [("val", jarr jint v)]
+  | .nat n => Json.mkObj [("nat", jnat n)]
+  | .keys l => Json.mkObj [("keys", jarr jnat l)]
+  | .items l => Json.mkObj [("items", jarr (fun (kv : Nat × Rec) => Json.arr #[jnat kv.1, jarr jint kv.2]) l)]
+  | .bool b => Json.mkObj [("bool", Json.bool b)]
+
+def parseLOp (j : Json) : Except String (LOp Rec) := do
+  let a ← getList j
+  match a with
+  | [Json.str "append", v] => pure (.append (← getIntList v))
+  | [Json.str "del", i] => pure (.del (← i.getInt?))
+  | [Json.str "get", i] => pure (.get (← i.getInt?))
+  | [Json.str "len"] => pure .len
+  | [Json.str "items"] => pure .items
+  | _ => throw s!"bad list-table op {j}"
+
+def ltable (j : Json) : Except String Json := do
+  let ops ← (← getList (← field j "ops")).mapM parseLOp
+  pure (jarr loutJson (lrun ([] : List Rec) ops).2)
+
 /-- RowCollector op sequence; after every op both the model's row view and the
     list-of-rows specification are reported. -/
 def rcRun (r : RC Int) (spec : List (List Int)) : List Json → Except String (List Json)
@@ -110,6 +133,7 @@ def handle (j : Json) : Except String Json := do
   let k ← (← field j "k").getStr?
   match k with
   | "table" => table j
+  | "ltable" => ltable j
   | "rc" => rc j
   | "grid" => grid j
   | "combo" => combo j
